@@ -455,9 +455,23 @@ class StopSim:
                     continue
                 return
 
+    def restart_ok(self, a):
+        if not (self.is_running(a) and self.A[a].reg) or self.term:
+            return False
+        for b in range(self.n):
+            x = self.A[b]
+            if x.sp != "idle" or x.stopping or x.ph is not None:
+                return False
+            if self.is_running(b) and b in self.gated:
+                return False
+        return True
+
     def drive(self, d):
         k = d[0]
         ok = True
+        if k == "restart":
+            # at a quiet point a restart is not observable: same identities, running, registered
+            return 0 if self.restart_ok(d[1]) else 1
         if k == "spawn":
             ok = self.step(("SpawnCheck", d[1], d[2])) and self.step(("SpawnInit", d[2])) and self.step(("SpawnAdd", d[2]))
         elif k == "spawn_gated":
@@ -494,6 +508,9 @@ CORPUS_SCENARIOS = [
                                                ["release", 2], ["release", 4], ["release", 3], ["release", 1]], "tag": "three-level"},
     # stop of an already stopped actor, then of its parent
     {"n": 3, "gated": [1], "actions": [["spawn", 0, 1], ["spawn", 1, 2], ["stop", 2], ["stop", 2], ["stop", 1], ["release", 1], ["stop", 1]], "tag": "restop"},
+    # a running subtree is restarted, later stopped: the restarted actors stop and leave the tree like first incarnations
+    {"n": 4, "gated": [], "actions": [["spawn", 0, 1], ["spawn", 1, 2], ["spawn", 2, 3], ["restart", 1], ["stop", 2], ["restart", 1], ["stop", 1]], "tag": "restart-then-stop"},
+    {"n": 3, "gated": [], "actions": [["spawn", 0, 1], ["spawn", 0, 2], ["restart", 0], ["stop", 2], ["restart", 1], ["stop", 0]], "tag": "restart-root-then-stop"},
     # two stoppers on the same actor
     {"n": 4, "gated": [1, 3], "actions": [["spawn", 0, 1], ["spawn", 1, 2], ["spawn", 2, 3], ["stop", 1], ["stop", 1], ["release", 3], ["release", 1]], "tag": "double-stop"},
 ]
@@ -533,6 +550,9 @@ def gen_scenarios(ctx, ws=False):
         n = rng.choice([3, 4, 5, 6, 7, 8])
         m = rng.randint(2, n - 1) if n > 3 else 2      # ids 1..m-1 built up front, the rest spawned later
         gated = [a for a in range(n) if rng.random() < 0.6]
+        rflav = rng.random() < 0.3       # restart flavour: only actors spawned later have a gated PostStop
+        if rflav:
+            gated = [a for a in gated if a >= m]
         sim = StopSim(n, gated, ws)
         actions, expect = [], []
 
@@ -551,6 +571,10 @@ def gen_scenarios(ctx, ws=False):
             blocked = [a for a in range(n) if sim.A[a].sp == "post" and a in sim.gated]
             checked = [c for c in range(n) if sim.A[c].ph == "checked"]
             r = rng.random()
+            restartable = [a for a in running if sim.restart_ok(a)]
+            if restartable and rng.random() < (0.3 if rflav else 0.1):
+                do(["restart", rng.choice(restartable)])
+                continue
             if r < 0.35:
                 pool = running if running and rng.random() < 0.8 else started
                 do(["stop", rng.choice(pool)])
@@ -577,7 +601,7 @@ def gen_scenarios(ctx, ws=False):
 def coq_daction(d):
     k = d[0]
     return {"spawn": "DSpawn %d %d", "spawn_gated": "DSpawnGated %d %d", "spawn_release": "DSpawnRelease %d",
-            "stop": "DStop %d", "release": "DRelease %d"}[k] % tuple(d[1:])
+            "stop": "DStop %d", "release": "DRelease %d", "restart": "DRestart %d"}[k] % tuple(d[1:])
 
 
 def scenario_oracle(sc, out):
@@ -694,6 +718,18 @@ def scenario_oracle(sc, out):
             found.append((sig, "Shutdown(a%d) returned nil (seq %d) while its descendant a%d had not completed PostStop (%s)" %
                           (a, r, d, "seq %d" % te_d if te_d is not None else "never"), {"ancestor": a, "descendant": d}))
             reported.add((a, d))
+    # a stopped actor leaves the tree: at the end of the script (every gate released, the harness waited
+    # for the death watch) no actor whose PostStop completed is still registered
+    steps = out.get("steps") or []
+    if steps:
+        o = steps[-1]["o"]
+        restarted = sorted({d[1] for d in sc["actions"] if d[0] == "restart"})
+        for a in range(min(n, len(o) // 2)):
+            inpost, running, poste, reg = o[2 * a]
+            if poste and not running and reg:
+                found.append(("stopped-actor-still-registered", "a%d completed PostStop and is not running but is still registered in the actor tree at the end of the script%s" %
+                              (a, " (actors restarted earlier in the script: %s)" % restarted if restarted else ""), {"actor": a}))
+                break
     return found
 
 
